@@ -295,7 +295,8 @@ class Interp:
                 return z3.BoolVal(False)
             return a.z == b.z
         if isinstance(a, VObj) and isinstance(b, VObj):
-            return z3.BoolVal(a is b)
+            # identity; a snapshot (old(...), at_entry(...)) of an object keeps its oid
+            return z3.BoolVal(a is b or a.oid == b.oid)
         if isinstance(a, VDict) and isinstance(b, VDict):
             if set(a.d) != set(b.d):
                 return z3.BoolVal(False)
@@ -336,7 +337,7 @@ class Interp:
         if isinstance(a, VOpaque) and isinstance(b, VOpaque):
             return self.eq(a, b)
         if isinstance(a, VObj) or isinstance(b, VObj):
-            return z3.BoolVal(a is b)
+            return z3.BoolVal(a is b or (isinstance(a, VObj) and isinstance(b, VObj) and a.oid == b.oid))
         return self.eq(a, b)
 
     # ------------------------------------------------------------------ statements
